@@ -118,6 +118,23 @@ def instances(tier):
     sh["no-rails"] = (S(N("S", "Source"), N("C", "Converter", "S"), N("L", "PLoad", "C")), {"L": "vi"})
     for sid, (shape, w) in sh.items():
         out.append(Instance("C08", "c08:s_rails", dict(shape=shape, warns=w), name="S/" + sid, uf=True, cover=["solved"], weight=20))
+    if tier == "thorough":
+        import itertools
+
+        bases = {
+            "chain": [("S", "Source", None), ("C", "Converter", "S"), ("G", "LinReg", "C"), ("W", "PSwitch", "G"), ("L1", "PLoad", "W"), ("L2", "ILoad", "C"),
+                      ("L3", "RLoad", "S")],
+            "two-src-mux": [("S1", "Source", None), ("S2", "Source", None), ("C", "Converter", "S2"), ("M", "PMux", ["S1", "C"]), ("L", "ILoad", "M"),
+                            ("L2", "PLoad", "S1")],
+        }
+        for bid, nodes in bases.items():
+            owners = [n for n, k, p in nodes if k not in ("PLoad", "ILoad", "RLoad")]
+            for r in range(1, len(owners) + 1):
+                for sub in itertools.combinations(owners, r):
+                    nn = [N(n, k, p, **({"rail": "R_" + n} if n in sub else {}), **({"pol": "nonneg"} if n == "S1" else {}),
+                            **({"loss": True} if n == "L2" else {})) for n, k, p in nodes]
+                    out.append(Instance("C08", "c08:s_rails", dict(shape=S(*nn), warns={"L": "vi", "L2": "vi", "C": "io"}),
+                                        name="S/enum/%s/%s" % (bid, "+".join(sub)), uf=True, cover=["solved"], weight=10))
     ph = ["a", "b"]
     p1 = S(N("S", "Source", rail="VIN"), N("C", "Converter", "S", rail="3V3", phases=["a"]), N("L1", "PLoad", "C", phases=["a"]), N("L2", "ILoad", "S", phases=["a", "b"]), phases=ph)
     out.append(Instance("C08", "c08:s_rails", dict(shape=p1, warns={"L1": "vi"}), name="S/phases-all", uf=True, cover=["solved"], weight=30))
